@@ -376,6 +376,14 @@ func (w *Reconciler) syncCreateTasks(
 
 	// Cannot create any tasks.
 	if !canCreateTask(rj) {
+		// Tasks are normally adopted when their creation is retried. Since nothing
+		// will be created anymore, adopt tasks that were created without being
+		// recorded (e.g. the status update failed), so that they are still
+		// tracked and killed together with the Job.
+		tasks, err := w.adoptUnrecordedTasks(rj, tasks)
+		if err != nil {
+			return rj, tasks, err
+		}
 		return rj, tasks, nil
 	}
 
@@ -517,6 +525,35 @@ func (w *Reconciler) syncCreateTask(
 	}
 
 	return rj, tasks, nil
+}
+
+// adoptUnrecordedTasks appends all tasks controlled by the Job that are not in
+// the given list of tasks.
+func (w *Reconciler) adoptUnrecordedTasks(rj *execution.Job, tasks []jobtasks.Task) ([]jobtasks.Task, error) {
+	taskMgr, err := w.tasks.ForJob(rj)
+	if err != nil {
+		return tasks, errors.Wrapf(err, "cannot get task manager")
+	}
+	allTasks, err := taskMgr.Lister().List()
+	if err != nil {
+		return tasks, errors.Wrapf(err, "cannot list tasks")
+	}
+	names := sets.NewString()
+	for _, task := range tasks {
+		names.Insert(task.GetName())
+	}
+	for _, task := range allTasks {
+		if names.Has(task.GetName()) {
+			continue
+		}
+		for _, ref := range task.GetOwnerReferences() {
+			if ref.Controller != nil && *ref.Controller && ref.Kind == execution.KindJob && rj.UID == ref.UID {
+				tasks = append(tasks, task)
+				break
+			}
+		}
+	}
+	return tasks, nil
 }
 
 func (w *Reconciler) getTaskForAdoption(rj *execution.Job, name string) (jobtasks.Task, error) {
